@@ -365,7 +365,18 @@ func Corpus(r *rand.Rand, tier string) []*Node {
 	for _, c := range []int{255, 256, 257} {
 		out = append(out, ListOf(c, func(i int) *Node { return Leaf('B', 0, i%2, r) }))
 	}
-	bigLists := []int{65535, 65536}
+	// 3-byte length fields whose MIDDLE byte is non-zero (65792 = 0x010100, 65793 = 0x010101,
+	// 70000 = 0x011170), alone and followed by a sibling; 0x7F8081 in the thorough tier
+	for _, l := range []int{65792, 65793, 70000} {
+		out = append(out, GenLeaf('B', 0, l, r))
+		out = append(out, &Node{Kind: 'L', Kids: []*Node{GenLeaf('A', 0, l, r), Leaf('U', 1, 1, r)}})
+	}
+	out = append(out, GenLeaf('U', 4, 20000, r), GenLeaf('O', 0, 65793, r), GenLeaf('I', 2, 35000, r), GenLeaf('F', 8, 8224, r))
+	out = append(out, &Node{Kind: 'L', Kids: []*Node{GenLeaf('W', 0, 65790, r), GenLeaf('J', 0, 66049, r), Leaf('I', 1, 2, r)}})
+	if tier == "thorough" {
+		out = append(out, GenLeaf('B', 0, 0x7F8081, r))
+	}
+	bigLists := []int{65535, 65536, 66000}
 	if tier == "thorough" {
 		bigLists = append(bigLists, 65537, 70001)
 	}
